@@ -71,6 +71,18 @@ def add_neutral_deletions(rds, rng, neutral):
             r["qual"] = r["qual"][: len(r["seq"])]
 
 
+def add_seqless(rds, rng, where):
+    """Alignment records without stored sequence (SEQ '*', as secondary alignments often are) among the reads of
+    `where` ("neutral": hap -1)."""
+    n = 0
+    for r in rds:
+        if (r.get("hap") == -1) == (where == "neutral") and rng.random() < 0.1 and r.get("seq") is not None:
+            r["seq"] = None
+            r["qual"] = None
+            n += 1
+    return n
+
+
 def region_depths(sample):
     g = sample.gene
     return {(gi, r): sample.coverage.region_coverage(gi, r) for gi, regs in enumerate(g.regions) for r in regs}
@@ -113,6 +125,9 @@ def _gen_case(res, case):
     rrds = reads.simulate(g, reads.haplotypes_for(g, [rc, rc]), rl=rl, depth=depth, ref=db.ref,
                           neutral=db.neutral, rng=rng)
     add_neutral_deletions(rrds, rng, db.neutral)
+    seqless = 0
+    if rng.random() < 0.35:
+        seqless = add_seqless(rrds, rng, "neutral") + add_seqless(rds, rng, "neutral")
     # the neutral region on another contig (as CYP2D8 is for most genes), at coordinates that overlap the gene's
     extra_contigs = ()
     if rng.random() < 0.3:
@@ -131,7 +146,8 @@ def _gen_case(res, case):
         return real_write(path, chrom, contig_len, rr, extra_contigs=extra_contigs)
 
     desc = {"db": db.label, "strand": g.strand, "planted": [list(c[:2]) for c in copies], "rl": rl,
-            "depth": depth, "neutral": [cn_region.chr, cn_region.start, cn_region.end]}
+            "depth": depth, "neutral": [cn_region.chr, cn_region.start, cn_region.end],
+            "records_without_sequence_in_neutral_region": seqless}
     pbam = write_bam(os.path.join(scratch, "prof.bam"), g.chr, db.contig_len, rrds)
     prof = Profile.load(g, pbam, cn_region)
     # 3. the profile sample against its own profile
